@@ -99,71 +99,65 @@ Definition rle_decode_run (z : list N) : N * N * N :=
   let r2 := tagged_get64 (skipn (N.to_nat (fst r1)) z) in
   (fst r1 + fst r2, snd r1, snd r2).
 
-(* outcome of a decoder: the stores made (in index order 0,1,2,...), or a
-   store past the capacity, or the loop ran off the end of the bytes it was
-   given (possible only on hostile input; theorems exclude it) *)
-Inductive rres :=
-| ROk (stores : list N)
-| ROob (stores : list N)      (* next store would be at an index >= maxCount *)
-| RFuel (stores : list N).
+(* outcome of a decoder: the stores made (in index order 0,1,2,...), or the
+   loop ran off the end of the bytes it was given (possible only on hostile
+   input; theorems exclude it) *)
+Inductive rle_res :=
+| RleOk (stores : list N)
+| RleFuel (stores : list N).
 
-Definition rres_app (pre : list N) (r : rres) : rres :=
+Definition rle_rres_app (pre : list N) (r : rle_res) : rle_res :=
   match r with
-  | ROk l => ROk (pre ++ l)
-  | ROob l => ROob (pre ++ l)
-  | RFuel l => RFuel (pre ++ l)
+  | RleOk l => RleOk (pre ++ l)
+  | RleFuel l => RleFuel (pre ++ l)
   end.
 
-Definition rres_stores (r : rres) : list N :=
-  match r with ROk l => l | ROob l => l | RFuel l => l end.
+Definition rle_stores (r : rle_res) : list N :=
+  match r with RleOk l => l | RleFuel l => l end.
 
-(* varintRLEDecode main loop.  total = totalDecoded.  `totalDecoded + toWrite`
-   and `totalDecoded + runLen` are size_t sums with a stream-supplied term:
-   add64.  When the first sum wraps, toWrite stays runLen > room: the C code
-   then stores past maxCount — ROob. *)
-Fixpoint rle_decode_loop (fuel : nat) (z : list N) (maxCount total : N) : rres :=
+(* varintRLEDecode main loop (after the fix of the hostile-stream overflow:
+   the run is clipped by comparing it with the room left, no sum that could
+   wrap).  total = totalDecoded. *)
+Fixpoint rle_decode_loop (fuel : nat) (z : list N) (maxCount total : N) : rle_res :=
   match fuel with
-  | O => RFuel []
+  | O => RleFuel []
   | S f =>
       if total <? maxCount then
         let '(consumed, runLen, value) := rle_decode_run z in
-        if runLen =? 0 then ROk []
+        if runLen =? 0 then RleOk []
         else
           let room := maxCount - total in
-          let toWrite := if maxCount <? add64 total runLen then room else runLen in
-          if room <? toWrite then ROob (repeat value (N.to_nat room))
-          else
-            let total' := total + toWrite in
-            let w := repeat value (N.to_nat toWrite) in
-            if (maxCount <? add64 total' runLen) && (toWrite <? runLen) then ROk w
-            else rres_app w (rle_decode_loop f (skipn (N.to_nat consumed) z) maxCount total')
-      else ROk []
+          let toWrite := if room <? runLen then room else runLen in
+          let w := repeat value (N.to_nat toWrite) in
+          if toWrite <? runLen then RleOk w
+          else rle_rres_app w (rle_decode_loop f (skipn (N.to_nat consumed) z) maxCount (total + toWrite))
+      else RleOk []
   end.
 
 (* varintRLEDecode(src, values, maxCount): return value = number of stores *)
-Definition rle_decode (z : list N) (maxCount : N) : rres :=
+Definition rle_decode (z : list N) (maxCount : N) : rle_res :=
   rle_decode_loop (S (length z)) z maxCount 0.
 
 (* varintRLEDecodeWithHeader main loop; the inner `for` stores
    min(runLen, maxCount - decoded) values *)
-Fixpoint rle_decode_hdr_loop (fuel : nat) (z : list N) (totalCount maxCount decoded : N) : rres :=
+Fixpoint rle_decode_hdr_loop (fuel : nat) (z : list N) (totalCount maxCount decoded : N) : rle_res :=
   match fuel with
-  | O => RFuel []
+  | O => RleFuel []
   | S f =>
       if (decoded <? totalCount) && (decoded <? maxCount) then
         let '(consumed, runLen, value) := rle_decode_run z in
         let room := maxCount - decoded in
         let n := if runLen <? room then runLen else room in
-        rres_app (repeat value (N.to_nat n))
+        rle_rres_app (repeat value (N.to_nat n))
           (rle_decode_hdr_loop f (skipn (N.to_nat consumed) z) totalCount maxCount (decoded + n))
-      else ROk []
+      else RleOk []
   end.
 
 (* varintRLEDecodeWithHeader: (return value, stores).  Header count larger
    than the capacity: return 0 without a store. *)
-Definition rle_decode_with_header (z : list N) (maxCount : N) : rres :=
+Definition rle_decode_with_header (z : list N) (maxCount : N) : rle_res :=
   let r := tagged_get64 z in
-  if maxCount <? snd r then ROk []
+  if maxCount <? snd r then RleOk []
   else rle_decode_hdr_loop (S (length z)) (skipn (N.to_nat (fst r)) z) (snd r) maxCount 0.
 
 (* varintRLEGetAt: `position + runLen` is a size_t sum with a stream term.
@@ -186,19 +180,19 @@ Definition rle_get_count (z : list N) : N := snd (tagged_get64 z).
 (* varintRLEGetRunCount (after fix F15): bounded reads.  z = bytes at src,
    n = encodedSize; state: remaining list at ptr, avail = end - ptr.
    `avail > 9 ? 9 : (int32_t)avail` *)
-Definition tagged_avail (avail : N) : Z := if 9 <? avail then 9%Z else Z.of_N avail.
+Definition rle_tagged_avail (avail : N) : Z := if 9 <? avail then 9%Z else Z.of_N avail.
 
 Fixpoint rle_run_count_loop (fuel : nat) (z : list N) (avail runs : N) : option N :=
   match fuel with
   | O => None
   | S f =>
       if 0 <? avail then
-        let r1 := tagged_get z (tagged_avail avail) in
+        let r1 := tagged_get z (rle_tagged_avail avail) in
         if (fst r1 =? 0) || (snd r1 =? 0) then Some runs
         else
           let avail1 := avail - fst r1 in
           let z1 := skipn (N.to_nat (fst r1)) z in
-          let r2 := tagged_get z1 (tagged_avail avail1) in
+          let r2 := tagged_get z1 (rle_tagged_avail avail1) in
           if fst r2 =? 0 then Some runs
           else rle_run_count_loop f (skipn (N.to_nat (fst r2)) z1) (avail1 - fst r2) (runs + 1)
       else Some runs
@@ -209,4 +203,4 @@ Definition rle_get_run_count (z : list N) (n : N) : option N :=
 
 (* EXTRACT: rle_analyze rle_size rle_is_beneficial rle_max_size rle_encode
    rle_encode_with_header rle_decode_run rle_decode rle_decode_with_header
-   rle_get_at rle_get_count rle_get_run_count rres_stores *)
+   rle_get_at rle_get_count rle_get_run_count rle_stores *)
